@@ -196,6 +196,10 @@ pub struct N(pub i64);
 impl From<i32> for N { fn from(x: i32) -> Self { N(x as i64) } }
 impl Default for N { fn default() -> Self { N(77) } }
 impl Show for N { fn sv(&self) -> String { format!("N{}", self.0) } }
+/// no `Default` impl: only a field with its own default expression can have this type
+#[derive(Debug, PartialEq)]
+pub struct Nd(pub u8);
+impl Show for Nd { fn sv(&self) -> String { format!("Nd{}", self.0) } }
 #[derive(Debug, PartialEq)]
 pub struct Fl(pub f64);
 impl From<f64> for Fl { fn from(x: f64) -> Self { Fl(x) } }
